@@ -75,8 +75,9 @@ _c("set_deltatime",
    modifies=["param:self"], havoc={"self.delta_time": "bytes"}, battery="track_int28")
 
 _c("set_tempo_event",
-   params={"self": "MidiTrack", "bpm": "int"}, requires="4 <= bpm and bpm <= 60000000", returns="bytes",
+   params={"self": "MidiTrack", "bpm": "int"}, requires="1 <= bpm and bpm <= 60000000", returns="bytes",
    modifies=[], pure=True,
+   raises={"binascii.Error": "bpm < 4"},     # more than 16777215 microseconds do not fit the three bytes: refused
    ensures=[("pending-delta-time-first", "result[:%s] == self.delta_time" % DT),
             ("meta-set-tempo-length-3", "result[%s] == 255 and result[%s + 1] == 81 and result[%s + 2] == 3" % (DT, DT, DT)),
             ("microseconds-per-quarter-big-endian",
